@@ -103,6 +103,20 @@ Definition astep (s : astate) (m : nop) : astate * outcome V :=
   | NFree i => (nput s i (arr_alloc V vzero vdef), ok V)
   end.
 
+(* the same machine as the op-script correspondence executes it (ocaml/drv_data.ml, k = 4 object
+   slots in harness/data_harness.c): container operations by DataModel.step - the harness, as the
+   caller, completes every vector to the documented length with zeros, which is the `nth` default
+   of step - and the quirks / DD2 variant as parameters, so that a difference can be classified by
+   re-running the model as found.  TwoObjProofs.kstep_is_nstep: with quirks `fixed`, DD2 repaired
+   and vectors of the documented length it is nstep. *)
+Definition kstep (Q : quirks) (dd2 : bool) (s : nstate) (m : nop) : nstate * outcome V :=
+  match m with
+  | NOn i o => let '(d, r) := step V vzero vdef Q (s i) o in (nput s i d, r)
+  | NConv a b nt =>
+      let '(d, r) := convert V vzero vdef Q dd2 conv (s a) (s b) (Nat.eqb a b) nt in (nput s b d, r)
+  | NFree i => (nput s i (vd_alloc V vzero vdef), ok V)
+  end.
+
 Definition nrun (s : nstate) (l : list nop) : nstate := fold_left (fun s m => fst (nstep s m)) l s.
 Definition arun (s : astate) (l : list nop) : astate := fold_left (fun s m => fst (astep s m)) l s.
 
